@@ -299,6 +299,15 @@ func (r *Runner) scanMapping(kind string, m mapping.IndexMapping, gamma, offset 
 		for _, d := range []int{-16, -4, -3, -2, -1, 0, 1, 2, 3, 4, 16} {
 			add(nudge(lb, d))
 		}
+		// bin bounds are strictly increasing with the index (the lower bound of the next bin is this
+		// bin's upper bound: C03 containment, C17 re-binning)
+		if i > iLo && i < iHi {
+			below, above := m.LowerBound(i-1), m.LowerBound(i+1)
+			if !(below < lb && lb < above) {
+				r.oracleFail("bounds-monotone", fmt.Sprintf("%s gamma=%v offset=%v: LowerBound(%d..%d) = %v, %v, %v", kind, gamma, offset, i-1, i+1, below, lb, above))
+				return
+			}
+		}
 		// log-uniform randoms
 		add(math.Exp(math.Log(lo) + rng.Float01()*(math.Log(hi)-math.Log(lo))))
 		// binade boundaries
@@ -310,6 +319,22 @@ func (r *Runner) scanMapping(kind string, m mapping.IndexMapping, gamma, offset 
 	for d := 0; d <= 4; d++ {
 		add(nudge(lo, d))
 		add(nudge(hi, -d))
+	}
+	// the bins around every power of two (where the interpolated mappings switch octave)
+	for e := int(math.Ceil(math.Log2(lo))) + 1; e < int(math.Floor(math.Log2(hi))); e++ {
+		i := m.Index(math.Ldexp(1, e))
+		for j := i - 2; j <= i+2; j++ {
+			if j <= iLo || j >= iHi {
+				continue
+			}
+			a, b := m.LowerBound(j), m.LowerBound(j+1)
+			if !(a < b) {
+				r.oracleFail("bounds-monotone", fmt.Sprintf("%s gamma=%v offset=%v: LowerBound(%d) = %v but LowerBound(%d) = %v (around 2^%d)", kind, gamma, offset, j, a, j+1, b, e))
+				return
+			}
+			add(nudge(a, 1))
+			add(nudge(b, -1))
+		}
 	}
 	sort.Float64s(ps)
 	prev := math.MinInt64
